@@ -439,6 +439,15 @@ class Engine:
                 return V(ty, z3.Concat(*elems) if len(elems) > 1 else elems[0])
         if ty is BOOL and v.ty is not BOOL:
             return V(BOOL, self.truthy(v))
+        if isinstance(ty, TSeq) and isinstance(v.ty, TRef) and st is not None and self.field_ty(v.ty.cls, '__items__') is not None:
+            # a list object read as a sequence value (its current elements)
+            return self.coerce(self.read_field(st, v, '__items__'), ty, st)
+        if isinstance(ty, TObj) and v.ty is FUN and isinstance(v.t, FuncRef):
+            # a repository function used as a value: a distinguished constant, if the sidecar names it (ext_values)
+            d = v.t.relpath[:-3].replace('/', '.').removesuffix('.__init__') + '.' + v.t.qualname
+            ev_ = getattr(self.reg, 'ext_values', {})
+            if d in ev_ and parse_type(ev_[d], self.reg.enums) == ty:
+                return V(ty, z3.Const('ext_' + ''.join(c if c.isalnum() else '_' for c in d), ty.sort()))
         raise Unsupported(f'cannot coerce {v.ty} to {ty}')
 
     def truthy(self, v, st=None):
